@@ -47,6 +47,7 @@ def dispatch (op : String) (args : List SExp) : Option OpResult :=
   | "cond" => opCond args
   | "cond.match" => opCondMatch args
   | "cond.pass" => opCondPass args
+  | "cond.announce" => opCondAnnounce args
   | "clean" => opClean args
   | "localpath" => opLocalPath args
   | "extpath" => opExtPath args
